@@ -229,6 +229,23 @@ func newCreateTable(ct sql.CreateTableStmt) (*Schema, error) {
 // See https://sqlite.org/datatype3.html chapter 3, "Type Affinity".
 func defaultValue(typ string, def interface{}) interface{} {
 	t := upperASCII(typ)
+	if b, ok := def.(bool); ok {
+		// DEFAULT TRUE / FALSE: the integer 1 or 0, and SQLite doesn't apply
+		// TEXT affinity to it: `c TEXT DEFAULT FALSE` reads as the integer 0.
+		n := int64(0)
+		if b {
+			n = 1
+		}
+		switch {
+		case strings.Contains(t, "INT"),
+			strings.Contains(t, "CHAR"), strings.Contains(t, "CLOB"), strings.Contains(t, "TEXT"),
+			strings.Contains(t, "BLOB"), t == "":
+			return n
+		case strings.Contains(t, "REAL"), strings.Contains(t, "FLOA"), strings.Contains(t, "DOUB"):
+			return float64(n)
+		}
+		return n
+	}
 	switch {
 	case strings.Contains(t, "INT"):
 		return numericAffinity(def, false)
